@@ -34,6 +34,10 @@ type c11Cfg struct {
 	Bound   int  // preemption bound, -1 unbounded
 	EnvCost int  // cost of a non-default pool answer against the bound
 	Warm    bool // one Get/Put on the allocator before it is copied / shared (set-up, not scheduled)
+	// Window: every goroutine keeps only b.Slice(0, Capacity) of the buffer it got (the header it was
+	// given becomes unreachable), forces a garbage collection while it holds the window, and puts the
+	// window back
+	Window bool `json:"window,omitempty"`
 }
 
 type c11Case struct {
@@ -135,11 +139,14 @@ func (h *c11H) Run(id int) {
 		h.progress(id, c, len(h.fails[id]))
 		schedx.Point("get")
 		b := p.Get()
-		if o := h.acquire(id, b); o >= 0 {
-			h.fail(id, "cycle %d: Get returned the buffer that goroutine %d still holds", c, o)
-		}
 		if hd := hdr(b); hd != want {
 			h.fail(id, "cycle %d: buffer obtained has shape %+v, a fresh one %+v", c, hd, want)
+		}
+		if cfg.Window {
+			b = b.Slice(0, cfg.L) // same length, same capacity; the header that Get returned is dropped
+		}
+		if o := h.acquire(id, b); o >= 0 {
+			h.fail(id, "cycle %d: Get returned the buffer that goroutine %d still holds", c, o)
 		}
 		fb := full(b)
 		n := fb.Len()
@@ -157,6 +164,11 @@ func (h *c11H) Run(id int) {
 		schedx.Point("stamp second half")
 		for i := n / 2; i < n; i++ {
 			fb.SetSample(i, tok)
+		}
+		if cfg.Window {
+			schedx.Point("gc")
+			runtime.GC() // finalizers of unreachable headers become runnable; they run while threads wait for the baton
+			schedx.Point("after gc")
 		}
 		schedx.Point("verify")
 		for i := 0; i < n; i++ {
@@ -279,6 +291,10 @@ func c11Configs(tier string, race bool) []c11Cfg {
 	}
 	add(2, 1, -1, 0)
 	addBig(2, 1, -1, 0)
+	// only a window of each buffer is kept, with a garbage collection while it is held
+	for _, bv := range []bool{false, true} {
+		r = append(r, c11Cfg{T: "int16", C: 2, L: 1, K: 2, G: 2, M: 2, ByValue: bv, Bound: 1, Window: true}, c11Cfg{T: "float64", C: 1, L: 0, K: 600, G: 2, M: 1, ByValue: bv, Bound: 2, Window: true})
+	}
 	add(2, 2, -1, 0)
 	add(3, 1, -1, 0)
 	if tier == "thorough" {
@@ -301,7 +317,8 @@ func c11RunCase(cs c11Case) (fs []F) {
 	defer runtime.GOMAXPROCS(old)
 	vs.SetGlobal(poolctl.Sched{})
 	va.SetHook(func(op string) { schedx.Point(op) })
-	defer func() { vs.SetGlobal(nil); va.SetHook(nil) }()
+	vs.SetFakeProcs(4, 16) // what the library is told about the machine (the real GOMAXPROCS is 1 here)
+	defer func() { vs.SetGlobal(nil); va.SetHook(nil); vs.SetFakeProcs(0, 0) }()
 	e := c11Explorer(cs.Cfg)
 	e.Prune = false
 	before := core.RaceErrors()
@@ -351,7 +368,8 @@ func c11Explore(c *core.Ctx, cfgs []c11Cfg, race bool, onFail func(cs c11Case, f
 	defer runtime.GOMAXPROCS(old)
 	vs.SetGlobal(poolctl.Sched{})
 	va.SetHook(func(op string) { schedx.Point(op) }) // every atomic operation of the library is a scheduling point
-	defer func() { vs.SetGlobal(nil); va.SetHook(nil) }()
+	vs.SetFakeProcs(4, 16)                           // what the library is told about the machine (the real GOMAXPROCS is 1 here)
+	defer func() { vs.SetGlobal(nil); va.SetHook(nil); vs.SetFakeProcs(0, 0) }()
 	baseGoroutines := runtime.NumGoroutine()
 	for _, cfg := range cfgs {
 		start := time.Now()
